@@ -44,7 +44,7 @@ func ocspAlphabet() []ocspBehav {
 	bs := R("issuer", "match", ocsp.Good, "+1h", "none")
 	bs.BadSig = true
 	al = append(al, bs)
-	for _, k := range []string{"badurl", "scheme", "transport", "timeout", "http404", "http500", "http302", "empty", "truncated", "oversized", "garbage", "readerr",
+	for _, k := range []string{"badurl", "scheme", "transport", "timeout", "http404", "http500", "http302", "http500-good-body", "http404-good-body", "http201-good-body", "empty", "truncated", "oversized", "garbage", "readerr",
 		"canned-unauthorized", "canned-malformed", "canned-internal", "canned-trylater", "canned-sigrequired"} {
 		al = append(al, ocspBehav{Kind: k})
 	}
